@@ -3,6 +3,8 @@
 package message
 
 import (
+	"fmt"
+	"context"
 	"errors"
 	"sync"
 
@@ -48,7 +50,8 @@ type c02Script struct {
 	panicVal int
 	nMw      int // pass-through middlewares around the handler function
 	mwAdds   bool // the outermost middleware appends one message to the output
-	pubOut   int // publisher: 0 accept, 1 error, 2 panic
+	pubOut   int // publisher: 0 accept, 1 error, 2 panic, 3 context.Canceled, 4 an error wrapping context.Canceled
+	errKind  int // the error the handler returns: 0 a plain one, 1 context.Canceled, 2 wrapping context.Canceled
 	shareOut bool // the function returns the consumed message object itself as output
 }
 
@@ -60,7 +63,8 @@ func c02ReadScript(prefix string, maxOut int) c02Script {
 		panicVal: vrt.Int(prefix+"panicval", 0, 2),
 		nMw:      vrt.Int(prefix+"nmw", 0, vrt.Bound("maxmw", 2)),
 		mwAdds:   vrt.Bool(prefix + "mwadds"),
-		pubOut:   vrt.Int(prefix+"pubout", 0, 2),
+		pubOut:   vrt.Int(prefix+"pubout", 0, 4),
+		errKind:  vrt.Int(prefix+"errkind", 0, 2),
 	}
 }
 
@@ -88,6 +92,12 @@ func c02Chain(s c02Script, run *c02Run) HandlerFunc {
 			out = append(out, NewMessage("o", nil))
 		}
 		if s.outcome == 1 {
+			switch s.errKind {
+			case 1:
+				return out, context.Canceled
+			case 2:
+				return out, fmt.Errorf("handler gave up: %w", context.Canceled)
+			}
 			return out, errScripted
 		}
 		return out, nil
